@@ -1323,6 +1323,8 @@ static void checkRotate3(long k)
     // quaternion from basis vectors, three sources of rotation matrices: the rounded reference matrix, rotate(), LinearSpace3(q)
     for (int src = 0; src < 3; ++src) {
       L Min = src == 0 ? D::mk(Rref) : src == 1 ? R : Mq;
+      if (src > 0 && !(ref::maxDiff(D::rm(Min), Rref) <= 3 * tR))
+        continue;  // rotate() / LinearSpace3(q) are already reported wrong above: not a valid input for this constructor
       QV vx(Min.vx.x, Min.vx.y, Min.vx.z), vy(Min.vy.x, Min.vy.y, Min.vy.z), vz(Min.vz.x, Min.vz.y, Min.vz.z);
       int br = quatBranch<S>(vx, vy, vz);
       Qt qb(vx, vy, vz);
